@@ -126,15 +126,15 @@ Lemma frame_app p rest : frame p ++ rest = dec (length p) ++ 58%N :: p ++ 44%N :
 Proof. unfold frame. rewrite <- app_assoc. cbn [app]. rewrite <- app_assoc. reflexivity. Qed.
 
 Lemma write_ns_ok x p :
-  length p <= ns_maxsize x -> stimeouts (script (ns_bs x)) = 0 -> concat (sbuf (ns_bs x)) = [] ->
+  length p <= ns_maxsize x -> sintrs (script (ns_bs x)) = [] -> concat (sbuf (ns_bs x)) = [] ->
   exists x', write_ns x p = (ONone, x') /\
     wire (ns_bs x') = wire (ns_bs x) ++ frame p /\ concat (sbuf (ns_bs x')) = [] /\
-    stimeouts (script (ns_bs x')) = 0 /\ ns_maxsize x' = ns_maxsize x.
+    sintrs (script (ns_bs x')) = [] /\ ns_maxsize x' = ns_maxsize x.
 Proof.
   intros Hp Hs Hb. unfold write_ns. rewrite (proj2 (Nat.ltb_ge _ _)) by assumption.
   rewrite frame_model.
   destruct (send (ns_bs x) (frame p)) as [o s'] eqn:E. pose proof (send_gen _ _ _ _ E) as (_ & sent & Hw & Hc & Hcase).
-  destruct o as [|n| |[]]; try contradiction.
+  destruct o as [|n| |e]; try contradiction.
   - destruct Hcase as (Hsb & _ & Hst). eexists. split; [reflexivity|]. cbn [ns_bs with_bs ns_maxsize].
     rewrite Hsb, Hb, !app_nil_r in Hc. repeat split; auto. congruence.
   - rewrite Hs in Hcase. discriminate.
@@ -142,7 +142,7 @@ Qed.
 
 Lemma ns_run_writes : forall ps x obs w,
   Forall (fun p => length p <= ns_maxsize x) ps ->
-  stimeouts (script (ns_bs x)) = 0 -> concat (sbuf (ns_bs x)) = [] ->
+  sintrs (script (ns_bs x)) = [] -> concat (sbuf (ns_bs x)) = [] ->
   ns_run true 0 x (map WriteNs ps) = (obs, w) ->
   wire (ns_bs w) = wire (ns_bs x) ++ concat (map frame ps) /\ getsendbuffer (ns_bs w) = [] /\
   map (fun y => o_out (snd y)) obs = map (fun _ => ONone) ps.
@@ -158,7 +158,7 @@ Proof.
 Qed.
 
 Theorem write_ns_frames wmax sc ps :
-  stimeouts sc = 0 -> Forall (fun p => length p <= wmax) ps ->
+  sintrs sc = [] -> Forall (fun p => length p <= wmax) ps ->
   let '(obs, w) := ns_run true 0 (ns_init wmax [] sc) (map WriteNs ps) in
   wire (ns_bs w) = concat (map frame ps) /\ getsendbuffer (ns_bs w) = [] /\
   map (fun x => o_out (snd x)) obs = map (fun _ => ONone) ps.
@@ -175,7 +175,7 @@ Record ns_inv (x : ns) : Prop := mkNsInv {
 }.
 
 Definition ns_rem (x : ns) : bytes := remaining (ns_bs x).
-Definition ns_tmo (x : ns) : nat := timeouts (nt (ns_bs x)).
+Definition ns_tmo (x : ns) : list exn := intrs (nt (ns_bs x)).
 
 Lemma spec_recv_one c rest dd :
   spec_recv_ok (c :: rest) 1 dd = true -> dd = [c].
@@ -190,7 +190,7 @@ Lemma read_ns_ok x p rest out x' :
   ns_inv x -> length p <= ns_maxsize x -> ns_rem x = frame p ++ rest ->
   read_ns x None = (out, x') ->
   ns_inv x' /\ ns_maxsize x' = ns_maxsize x /\
-  ((out = OExn Timeout /\ ns_rem x' = ns_rem x /\ ns_tmo x = S (ns_tmo x')) \/
+  ((exists e, out = OExn e /\ ns_rem x' = ns_rem x /\ ns_tmo x = e :: ns_tmo x') \/
    (out = OBytes p /\ ns_rem x' = rest /\ ns_tmo x' = ns_tmo x)).
 Proof.
   intros [W R M] Hp Hrem H. unfold ns_rem, ns_tmo in *. unfold read_ns in H.
@@ -201,9 +201,9 @@ Proof.
   destruct (recv_until (ns_bs x) [58%N] (MVal (ns_msgsize_maxsize x)) false) as [o1 s1] eqn:E1.
   pose proof (recv_until_ok _ _ _ _ _ _ W R E1) as (W1 & SR1 & _ & C1).
   assert (Rs1 : 1 <= recvsize s1) by (destruct SR1 as (_ & -> & _); assumption).
-  destruct C1 as [(-> & Hr1 & Ht1)|(_ & Ht1 & C1)].
+  destruct C1 as [(e & -> & Hr1 & Ht1)|(_ & Ht1 & C1)].
   { inversion H; subst; clear H. cbn [ns_bs with_bs ns_maxsize ns_msgsize_maxsize].
-    split; [constructor; assumption|]. split; [reflexivity|]. left. auto. }
+    split; [constructor; assumption|]. split; [reflexivity|]. left. exists e. auto. }
   cbn [spec_framing resolve lim_take] in C1. rewrite Hrem in C1.
   assert (F1 : first_occ [58%N] (firstn (ns_msgsize_maxsize x) (frame p ++ rest)) = Some k).
   { unfold frame. rewrite <- app_assoc. cbn [app]. rewrite firstn_app_cons by (fold k; lia).
@@ -222,9 +222,9 @@ Proof.
   destruct (recv_size s1 (length p)) as [o2 s2] eqn:E2.
   pose proof (recv_size_ok _ _ _ _ W1 Rs1 E2) as (W2 & SR2 & _ & C2).
   assert (Rs2 : 1 <= recvsize s2) by (destruct SR2 as (_ & -> & _); assumption).
-  destruct C2 as [(-> & Hr2 & Ht2)|(_ & Ht2 & C2)].
+  destruct C2 as [(e & -> & Hr2 & Ht2)|(_ & Ht2 & C2)].
   { inversion H; subst; clear H. cbn [ns_bs with_bs ns_maxsize ns_msgsize_maxsize nt rbuf set_recv].
-    split; [constructor; assumption|]. split; [reflexivity|]. left. split; [reflexivity|].
+    split; [constructor; assumption|]. split; [reflexivity|]. left. exists e. split; [reflexivity|].
     split; [|congruence].
     rewrite remaining_set_recv, <- app_assoc. change (rbuf s2 ++ flat (nt s2)) with (remaining s2).
     rewrite Hr2, <- Hrem1, Hrem, frame_app, <- app_assoc. reflexivity. }
@@ -238,9 +238,9 @@ Proof.
   destruct (recv s2 1) as [o3 s3] eqn:E3.
   pose proof (recv_ok _ _ _ _ W2 Rs2 E3) as (W3 & SR3 & _ & C3).
   assert (Rs3 : 1 <= recvsize s3) by (destruct SR3 as (_ & -> & _); assumption).
-  destruct C3 as [(-> & Hr3 & Ht3)|(_ & Ht3 & (dd & -> & Hok & Hr3))].
+  destruct C3 as [(e & -> & Hr3 & Ht3)|(_ & Ht3 & (dd & -> & Hok & Hr3))].
   { inversion H; subst; clear H. cbn [ns_bs with_bs ns_maxsize ns_msgsize_maxsize nt rbuf set_recv].
-    split; [constructor; assumption|]. split; [reflexivity|]. left. split; [reflexivity|].
+    split; [constructor; assumption|]. split; [reflexivity|]. left. exists e. split; [reflexivity|].
     split; [|congruence].
     rewrite remaining_set_recv, <- app_assoc. change (rbuf s3 ++ flat (nt s3)) with (remaining s3).
     rewrite Hr3, <- Hrem2, Hrem, frame_app, <- app_assoc. reflexivity. }
@@ -251,17 +251,19 @@ Proof.
 Qed.
 
 Lemma read_ns_retry_ok : forall fuel x p rest out x',
-  ns_inv x -> length p <= ns_maxsize x -> ns_rem x = frame p ++ rest -> ns_tmo x <= fuel ->
+  ns_inv x -> length p <= ns_maxsize x -> ns_rem x = frame p ++ rest -> length (ns_tmo x) <= fuel ->
   read_ns_retry fuel x None = (out, x') ->
   ns_inv x' /\ ns_maxsize x' = ns_maxsize x /\ out = OBytes p /\ ns_rem x' = rest.
 Proof.
   induction fuel as [|f IH]; intros x p rest out x' I Hp Hrem F H; cbn [read_ns_retry] in H;
     destruct (read_ns x None) as [o1 x1] eqn:E;
-    destruct (read_ns_ok _ _ _ _ _ I Hp Hrem E) as (I1 & Hm & [(-> & Hr & Ht)|(-> & Hr & Ht)]).
-  - lia.
-  - inversion H; subst. auto.
-  - apply IH with (p := p) (rest := rest) in H; try congruence; try lia.
-  - inversion H; subst. auto.
+    destruct (read_ns_ok _ _ _ _ _ I Hp Hrem E) as (I1 & Hm & [(e & -> & Hr & Ht)|(-> & Hr & Ht)]).
+  - rewrite Ht in F. cbn in F. lia.
+  - cbn in H. inversion H; subst. auto.
+  - cbn [is_interrupt] in H. unfold ns_tmo in Ht. rewrite (intrs_head _ _ _ Ht) in H.
+    apply IH with (p := p) (rest := rest) in H; try congruence.
+    unfold ns_tmo in F. rewrite Ht in F. cbn in F. unfold ns_tmo. lia.
+  - cbn in H. inversion H; subst. auto.
 Qed.
 
 Lemma ns_read_retry_ok : forall ps x,
@@ -272,7 +274,8 @@ Proof.
   inversion Hall as [|? ? Hp Hrest]; subst. cbn [length ns_read_retry map].
   destruct (read_ns_retry (timeouts (nt (ns_bs x))) x None) as [out x'] eqn:E.
   cbn [map concat] in Hrem.
-  apply read_ns_retry_ok with (p := p) (rest := concat (map frame ps)) in E; auto.
+  apply read_ns_retry_ok with (p := p) (rest := concat (map frame ps)) in E; auto;
+    try (unfold ns_tmo, timeouts; apply le_n).
   destruct E as (I' & Hm & -> & Hr). f_equal. apply IH; auto. rewrite Hm. assumption.
 Qed.
 
